@@ -384,8 +384,10 @@ func applyCall(p mq.Packet, tok string) {
 //   ~String ~Dump ~WriteTo ~WellFormed ~Acc   read-only operations in the middle of a history
 //   ~FailWrite                               WriteTo on a writer that fails
 //   ~WillSet:<call>                          a setter applied to the will message AFTER it was attached
-//   ~Spread:<hex:o,hex:o,...>                Subscribe.AddFilters(list...) with a caller-owned slice that is
-//                                            overwritten afterwards
+//   ~Spread:<hex:o,hex:o,...>                Subscribe.AddFilters(list...) with a caller-owned slice
+//   ~Reuse                                   the caller overwrites and appends to the slices it passed before
+var keptLists [][]mq.TopicFilter
+
 func applyPseudo(p mq.Packet, name, arg string) {
 	switch name {
 	case "~String":
@@ -422,10 +424,16 @@ func applyPseudo(p mq.Packet, name, arg string) {
 		}
 		list = append(make([]mq.TopicFilter, 0, len(list)+3), list...)
 		sub.AddFilters(list...)
-		for i := range list { // the caller reuses its slice
-			list[i] = mq.NewTopicFilter("overwritten", 0)
+		keptLists = append(keptLists, list)
+	case "~Reuse":
+		// the caller goes on using the slices it passed to AddFilters
+		for _, list := range keptLists {
+			for i := range list {
+				list[i] = mq.NewTopicFilter("overwritten-by-caller", 0)
+			}
+			_ = append(list, mq.NewTopicFilter("appended-by-caller", 0))
 		}
-		list = append(list, mq.NewTopicFilter("appended-by-caller", 0))
+		keptLists = nil
 	default:
 		panic("pseudo call " + name)
 	}
